@@ -1,7 +1,161 @@
-//! C07 harness (stub until built)
+//! C07: compilation is deterministic.
+//!
+//! request : C07.repeat \t <dx|vk|vkba|msl> \t <all|nopipeline> \t <gen:<seed> | disk:<root>|<entry>>
+//! observe : digest of sources + stages + metadata + pipeline state (or of the diagnostic)
+//! oracle  : the same input compiled 5x in this process and once in each of 3 fresh processes (different
+//!           std RandomState seeds for every HashMap/HashSet instance) gives byte-identical results.
+use crate::compile_util::*;
+use crate::progen::*;
 use crate::util::*;
 
-pub fn run(_args: &Args, _out: &mut Out) {
-    eprintln!("C07: harness not built yet");
-    std::process::exit(2);
+fn source_of(id: &str) -> Option<(Option<(String, String)>, Option<String>)> {
+    if let Some(seed) = id.strip_prefix("gen:") {
+        let seed: u64 = seed.parse().ok()?;
+        let prog = gen_program(&mut Rng::new(seed), &stress_opts());
+        Some((None, Some(render(&prog, &|_| true))))
+    } else if let Some(rest) = id.strip_prefix("disk:") {
+        let (root, entry) = rest.split_once('|')?;
+        Some((Some((root.to_string(), entry.to_string())), None))
+    } else {
+        None
+    }
+}
+
+fn stress_opts() -> GenOpts {
+    GenOpts { max_resources: 10, max_helpers: 6, max_pipes: 3, allow_mesh: true, share_entries: true }
+}
+
+fn compile_id(id: &str, tgt: Tgt, mode: &Mode) -> Option<CompileOutcome> {
+    let (disk, src) = source_of(id)?;
+    Some(match (disk, src) {
+        (Some((root, entry)), _) => compile_disk(&root, &entry, tgt, mode.clone()),
+        (_, Some(src)) => compile_src(&src, tgt, mode.clone()),
+        _ => return None,
+    })
+}
+
+fn parse_req(line: &str) -> Option<(Tgt, Mode, String)> {
+    let f: Vec<&str> = line.split('\t').collect();
+    if f.len() != 4 || f[0] != "C07.repeat" {
+        return None;
+    }
+    let mode = match f[2] {
+        "all" => Mode::All,
+        "nopipeline" => Mode::NoPipeline,
+        _ => return None,
+    };
+    Some((Tgt::parse(f[1])?, mode, f[3].to_string()))
+}
+
+/// child mode: print one digest per request and nothing else
+fn child(lines: &[String]) {
+    for line in lines {
+        if let Some((t, m, id)) = parse_req(line) {
+            let d = compile_id(&id, t, &m).map(|o| o.digest()).unwrap_or_else(|| "bad".into());
+            println!("DIGEST\t{}", d);
+        }
+    }
+}
+
+fn run_requests(lines: &[String], out: &mut Out, hist: &mut Hist) {
+    // in-process repeats
+    let mut first: Vec<String> = Vec::new();
+    let mut fails: Vec<Option<String>> = Vec::new();
+    for line in lines {
+        let Some((t, m, id)) = parse_req(line) else {
+            first.push("bad".into());
+            fails.push(Some("bad request".into()));
+            continue;
+        };
+        let a = compile_id(&id, t, &m);
+        let d0 = a.as_ref().map(|o| o.digest()).unwrap_or_else(|| "bad".into());
+        let mut fail = None;
+        if let Some(CompileOutcome::Panic(p)) = &a {
+            fail = Some(format!("panic {}", p));
+        }
+        for k in 1..5 {
+            let d = compile_id(&id, t, &m).map(|o| o.digest()).unwrap_or_else(|| "bad".into());
+            if d != d0 && fail.is_none() {
+                fail = Some(format!("run {} in the same process differs: {} vs {}", k, d, d0));
+            }
+        }
+        hist.add(&format!("target={}", t.name()));
+        hist.add(if d0.starts_with("ok") { "outcome=ok" } else if d0.starts_with("err") { "outcome=err" } else { "outcome=panic" });
+        hist.add(if id.starts_with("gen:") { "source=generated" } else { "source=repo-corpus" });
+        first.push(d0);
+        fails.push(fail);
+    }
+    // fresh processes
+    let tmp = std::env::temp_dir().join(format!("c07-req-{}.txt", std::process::id()));
+    std::fs::write(&tmp, lines.join("\n") + "\n").unwrap();
+    let exe = std::env::current_exe().unwrap();
+    for proc_no in 0..3 {
+        let output = std::process::Command::new(&exe)
+            .args(["c07", "--requests", tmp.to_str().unwrap(), "child"])
+            .output();
+        let Ok(output) = output else {
+            for f in fails.iter_mut() {
+                if f.is_none() {
+                    *f = Some("could not start a child process".into());
+                }
+            }
+            break;
+        };
+        let text = String::from_utf8_lossy(&output.stdout);
+        let digests: Vec<&str> = text.lines().filter_map(|l| l.strip_prefix("DIGEST\t")).collect();
+        for (i, d0) in first.iter().enumerate() {
+            let d = digests.get(i).copied().unwrap_or("missing");
+            if d != d0 && fails[i].is_none() {
+                fails[i] = Some(format!("fresh process {} differs: {} vs {}", proc_no, d, d0));
+            }
+        }
+    }
+    let _ = std::fs::remove_file(&tmp);
+    for ((line, d0), fail) in lines.iter().zip(&first).zip(&fails) {
+        let oracle = match fail {
+            None => "ok".to_string(),
+            Some(f) => format!("FAIL:{}", f),
+        };
+        out.case(line, d0, &oracle);
+    }
+}
+
+pub fn run(args: &Args, out: &mut Out) {
+    let mut hist = Hist::default();
+    if let Some(lines) = args.request_lines() {
+        if args.extra.iter().any(|e| e == "child") {
+            child(&lines);
+            return;
+        }
+        run_requests(&lines, out, &mut hist);
+        out.stat(&format!("{{\"mode\":\"replay\",\"hist\":{}}}", hist.json()));
+        return;
+    }
+    let repo = std::env::var("VERIF_REPO").unwrap_or_else(|_| "/repo".into());
+    let mut lines = Vec::new();
+    let mut rng = Rng::new(args.seed);
+    let n = args.n.unwrap_or(if args.thorough() { 1500 } else { 120 });
+    for _ in 0..n {
+        let seed = rng.next() >> 16;
+        let probe = gen_program(&mut Rng::new(seed), &stress_opts());
+        let mode = if probe.pipes.is_empty() { "nopipeline" } else { "all" };
+        for t in ALL_TARGETS {
+            lines.push(format!("C07.repeat\t{}\t{}\tgen:{}", t.name(), mode, seed));
+        }
+    }
+    // the repository's own inputs
+    let corpus = repo_corpus(&repo);
+    let take = if args.thorough() { corpus.len() } else { corpus.len().min(24) };
+    let step = (corpus.len() / take.max(1)).max(1);
+    for (i, (root, entry)) in corpus.iter().enumerate() {
+        if i % step != 0 {
+            continue;
+        }
+        let mode = if entry.ends_with(".rssl") { "all" } else { "nopipeline" };
+        for t in [Tgt::Dx, Tgt::Msl] {
+            lines.push(format!("C07.repeat\t{}\t{}\tdisk:{}|{}", t.name(), mode, root, entry));
+        }
+    }
+    run_requests(&lines, out, &mut hist);
+    out.stat(&format!("{{\"requests\":{},\"repeats_in_process\":5,\"fresh_processes\":3,\"hist\":{}}}", lines.len(), hist.json()));
 }
